@@ -37,7 +37,9 @@ EXPLANATION = (
     'follow by a textbook argument and are not re-proved.')
 
 ITER_FUNCS = ('_kcenters_iteration', '_kcenters_iteration_mpi')
-INF_FORMS = ['np.inf', 'float("inf")', 'math.inf', 'np.Inf', 'np.infty', 'numpy.inf', 'np.PINF']
+INF_FORMS = ['np.inf', 'float("inf")', 'math.inf', 'np.Inf', 'np.infty', 'numpy.inf', 'np.PINF',
+             'float("+inf")', 'float("Infinity")', 'float("infinity")', 'float(np.inf)', 'np.float64(np.inf)',
+             'np.float64("inf")', 'float("Inf")', 'float("INF")']
 
 
 # ---------------------------------------------------------------------------
@@ -166,7 +168,7 @@ def du_expand(fi, expr, stop=(), strict=True, depth=8, inline=True):
                 if v is not None:
                     return ex(v, d - 1)
             new = ast.copy_location(ast.Name(id=e.id, ctx=e.ctx), e)
-            new._orig = e
+            new._orig = getattr(e, '_orig', e)
             return new
         if not isinstance(e, ast.AST):
             return e
@@ -190,8 +192,93 @@ def du_expand(fi, expr, stop=(), strict=True, depth=8, inline=True):
         for a in ('lineno', 'col_offset', 'end_lineno', 'end_col_offset'):
             if hasattr(e, a):
                 setattr(new, a, getattr(e, a))
+        new._src = getattr(e, '_src', e)
         return new
     return ex(expr, depth)
+
+
+def alias_chain(fi, v):
+    """Names through which the expression `v` is a plain copy of another
+    name: v itself if it is a Name, the Name it is (solely) defined as, and
+    so on (`a = b; b = c` -> [a-use, b-use, c-use]).  Every element denotes
+    the same value as `v` at the place where `v` is evaluated (du_value
+    guarantees a single reaching definition and no rebinding in between)."""
+    out = []
+    while isinstance(v, ast.Name) and isinstance(v.ctx, ast.Load) and len(out) < 8:
+        out.append(v)
+        v = du_value(fi, v)
+    return out
+
+
+def object_sites(fi, nm, depth=6):
+    """{(definition site, name)} that create the object a Name use can
+    denote: reaching definitions, with plain reference copies `x = y`
+    followed to the definitions of y reaching the copy."""
+    out = set()
+    for d in fi.defs_of_use(nm):
+        v = fi.def_value(d, nm.id) if d not in ('PARAM', 'UNBOUND') else None
+        if isinstance(v, ast.Name) and isinstance(v.ctx, ast.Load) and depth > 0:
+            out |= object_sites(fi, v, depth - 1)
+        else:
+            out.add((d, nm.id))
+    return out
+
+
+def same_computation(fi, a, b):
+    """Two expressions produced by du_expand denote the same value: equal
+    text, every name stems from uses that denote the same value
+    (FuncInfo.same_value, no in-place mutation of the object between the two
+    uses), and every call that is not known to be pure is one and the same
+    call site in both (a def-use fact: the value of THAT call, held in a
+    single-definition name, is used twice)."""
+    if u(a) != u(b):
+        return False
+    na, nb = list(ast.walk(a)), list(ast.walk(b))
+    if len(na) != len(nb):
+        return False
+    for p, r in zip(na, nb):
+        if type(p) is not type(r):
+            return False
+        if isinstance(p, ast.Name):
+            op, orr = getattr(p, '_orig', None), getattr(r, '_orig', None)
+            if op is None or orr is None:
+                return False
+            if op is orr:
+                continue
+            if not fi.same_value(op, orr):
+                return False
+            sp, sr = fi.stmt(op), fi.stmt(orr)
+            for ms in fi._mutated_in_place(p.id):
+                if ms is sp or ms is sr:
+                    continue
+                if (fi.cfg.reachable(sp, ms) and fi.cfg.reachable(ms, sr)) or \
+                        (fi.cfg.reachable(sr, ms) and fi.cfg.reachable(ms, sp)):
+                    return False
+        elif isinstance(p, ast.Call):
+            if getattr(p, '_src', None) is not None and getattr(p, '_src', None) is getattr(r, '_src', None):
+                continue
+            if not _shallow_pure(p):
+                return False
+    return True
+
+
+def _shallow_pure(call):
+    """The call itself (callee applied to already evaluated receiver and
+    arguments) is pure according to the purity oracle of the front end."""
+    from ..normal import is_pure
+    ph = ast.Name(id='_operand', ctx=ast.Load())
+    func = _strip(call.func)
+    if isinstance(func, ast.Attribute):
+        base = func.value
+        while isinstance(base, ast.Attribute):
+            base = base.value
+        if not isinstance(base, ast.Name):
+            func.value = ph
+    elif not isinstance(func, ast.Name):
+        return False
+    c = ast.Call(func=func, args=[ph for _ in call.args],
+                 keywords=[ast.keyword(arg=k.arg, value=ph) for k in call.keywords])
+    return is_pure(c)
 
 
 def cx(node):
@@ -490,26 +577,26 @@ def _d1_mpi(ck, rule, mod):
                 continue
             if role == 'owner':
                 x = du_expand(fi, v)
-                ck.decide(cls(x, owner_forms), rule, mod, site, q, u(site),
+                verdict = cls(x, owner_forms)
+                if verdict[0] == 'far' and _index_at_owner(fi, v, None, set(), D)[0][0] == 'match':
+                    # positively the other role's value: a frame index where the rank belongs
+                    verdict = ('near', verdict[1], verdict[2])
+                ck.decide(verdict, rule, mod, site, q, u(site),
                           'owner = argmax over all-gathered local maxima of distances',
                           'owner rank of the next centre must be argmax of the '
                           'all-gathered local maxima of `%s`; found `%s`' % (D, ctext(x)[:160]))
             else:
-                x = du_expand(fi, v, stop=(owner.id,) if isinstance(owner, ast.Name) else ())
-                O = owner.id if isinstance(owner, ast.Name) else '_O'
-                forms = ['np.array(__.allgather(%s.argmax()))[%s]' % (D, O), '__.allgather(%s.argmax())[%s]' % (D, O),
-                         'np.asarray(__.allgather(%s.argmax()))[%s]' % (D, O),
-                         'int(np.array(__.allgather(%s.argmax()))[%s])' % (D, O),
-                         '__.allgather(%s.argmax()).copy()[%s]' % (D, O)]
-                verdict = cls(x, forms)
+                verdict, x, od = _index_at_owner(fi, v, owner, owner_defs, D)
+                if verdict[0] == 'far' and cls(du_expand(fi, v), owner_forms)[0] == 'match':
+                    # positively the other role's value: the rank where the frame index belongs
+                    verdict = ('near', verdict[1], verdict[2])
                 if verdict[0] == 'match' and isinstance(owner, ast.Name):
-                    # the owner used as position must be the owner handed to distribute_frame
-                    od = set()
-                    for o in origins(x, O):
-                        od |= fi.defs_of_use(o) if o is not None else {'?'}
-                    paired = len(od) == 1 and od <= owner_defs and not any(
-                        d is not next(iter(od)) and d not in ('PARAM', 'UNBOUND') and fi.cfg.reachable(site, d)
-                        and fi.cfg.reachable(d, cstmt) for d in owner_defs)
+                    # the rank used as position must be the owner handed to
+                    # distribute_frame: every definition of the owner that can
+                    # reach the call on a path through this definition of the
+                    # index is one that holds the value used as position
+                    via = _defs_reaching_via(fi, owner.id, owner_defs, site, cstmt)
+                    paired = bool(via) and via <= od and not (via & {'PARAM', 'UNBOUND', '?'})
                     if not paired:
                         ck.bad(rule, mod, site, q, u(site),
                                'the all-gathered local argmax is taken at a rank that is not (always) the owner '
@@ -520,6 +607,99 @@ def _d1_mpi(ck, rule, mod):
                           'local index of the next centre must be the all-gathered '
                           'local argmax of `%s` taken at the owner rank; found `%s`' % (D, ctext(x)[:160]))
     return n
+
+
+def _defs_reaching_via(fi, name, defs_at_target, site, target):
+    """Definitions of `name` that can be the one in force at `target` on an
+    execution that passes through `site`."""
+    from ..cfg import stmt_defs
+    alld = [d for d in fi.cfg.nodes if d not in (ENTRY, EXIT) and not isinstance(d, Assume) and name in stmt_defs(d)]
+    out = set()
+    if site in alld:
+        if fi.cfg.reachable(site, target, avoiding=[d for d in alld if d is not site]):
+            out.add(site)
+    elif fi.cfg.reachable(site, target, avoiding=alld):
+        out |= set(fi.rd.defs_at(site, name))
+    for d in defs_at_target:
+        if d in ('PARAM', 'UNBOUND') or d is site:
+            continue
+        if fi.cfg.reachable(site, d):
+            out.add(d)
+    return out
+
+
+def _index_at_owner(fi, v, owner, owner_defs, D):
+    """Three-valued recognition of a definition `v` of the local index of the
+    next centre: the all-gathered local argmax of D, taken at the position of
+    the owner rank.  Returns (verdict, expanded expression, definition sites of
+    the owner whose value is the one used as position)."""
+    def forms(O):
+        return ['np.array(__.allgather(%s.argmax()))[%s]' % (D, O), '__.allgather(%s.argmax())[%s]' % (D, O),
+                'np.asarray(__.allgather(%s.argmax()))[%s]' % (D, O),
+                'int(np.array(__.allgather(%s.argmax()))[%s])' % (D, O),
+                '__.allgather(%s.argmax()).copy()[%s]' % (D, O)]
+    if not isinstance(owner, ast.Name):
+        x = du_expand(fi, v)
+        return cls(x, forms('_O')), x, set()
+    # names that hold the owner's value: the owner itself and whatever it is a
+    # plain copy of (`owner = tmp_owner`)
+    chains = {}
+    for d in owner_defs:
+        ov = fi.def_value(d, owner.id) if d not in ('PARAM', 'UNBOUND') else None
+        chains[d] = alias_chain(fi, ov) if ov is not None else []
+    S = {owner.id} | {a.id for ch in chains.values() for a in ch}
+    x = du_expand(fi, v, stop=tuple(S))
+    for O in sorted(S, key=lambda s: (s != owner.id, s)):
+        verdict = cls(x, forms(O))
+        if verdict[0] != 'match':
+            continue
+        od = set()
+        for o in origins(x, O):
+            if o is None:
+                od.add('?')
+            elif O == owner.id:
+                od |= fi.defs_of_use(o)
+            else:
+                du = fi.defs_of_use(o)
+                for d, ch in chains.items():
+                    if any(a.id == O and len(du) == 1 and fi.defs_of_use(a) == du for a in ch):
+                        od.add(d)
+                if not any(any(a.id == O and fi.defs_of_use(a) == du for a in ch) for ch in chains.values()):
+                    od.add('?')
+        return verdict, x, od
+    # the position is spelled out again: the same computation as the owner's
+    core = x
+    if isinstance(core, ast.Call) and isinstance(core.func, ast.Name) and core.func.id == 'int' \
+            and len(core.args) == 1 and not core.keywords:
+        core = core.args[0]
+    if isinstance(core, ast.Subscript) and not isinstance(core.slice, (ast.Slice, ast.Tuple)):
+        od = set()
+        for d in owner_defs:
+            ov = fi.def_value(d, owner.id) if d not in ('PARAM', 'UNBOUND') else None
+            if ov is not None and not isinstance(ov, ast.Constant) and \
+                    same_computation(fi, du_expand(fi, ov), core.slice):
+                od.add(d)
+        if od:
+            # the base alone, with the position abstracted
+            ph = '_OWNER_POSITION'
+            x2 = _strip(x)
+            c2 = x2.args[0] if core is not x else x2
+            c2.slice = ast.Name(id=ph, ctx=ast.Load())
+            verdict = cls(x2, forms(ph))
+            if verdict[0] == 'match':
+                return verdict, x, od
+        else:
+            # a different function of the operands the owner is computed from
+            # (argmin for argmax, another array): positively another rank
+            sx = core.slice
+            for d in owner_defs:
+                ov = fi.def_value(d, owner.id) if d not in ('PARAM', 'UNBOUND') else None
+                if ov is None or isinstance(ov, ast.Constant):
+                    continue
+                v2 = cls(sx, [u(_strip(du_expand(fi, ov)))], near=2)
+                if v2[0] == 'near':
+                    return v2, x, set()
+    return cls(x, forms(owner.id)), x, set()
 
 
 def _alloc_parts(e):
@@ -900,9 +1080,31 @@ def d4_criteria(ck):
             st = IN.get(s)
             if v is None or st is None or st.get(name) != nullness.NONE:
                 continue
-            ck.decide(classify(fi.expand(v), forms, scope=set()), rule + '.default', mod, s, 'kcenters', u(s),
+            # the substitute is judged as a function of the inputs of kcenters:
+            # anything computed purely from them (a constant, `len(traj)`, ...)
+            # that is not the neutral element is a bound that CAN stop the loop
+            x = fi.expand(v)
+            verdict = classify(x, forms, scope=set(P))
+            if verdict[0] == 'near' and verdict[1] > 1 and _mentions_infinity(x):
+                verdict = ('far',) + tuple(verdict[1:])     # some spelling of an infinity the rule does not know
+            ck.decide(verdict, rule + '.default', mod, s, 'kcenters', u(s),
                       'missing criterion replaced by its neutral element',
-                      'a missing %s must be replaced by %s (the value that never stops the loop)' % (name, want))
+                      'a missing %s must be replaced by %s (the value that never stops the loop); found `%s`, '
+                      'a finite / input-dependent bound' % (name, want, u(x)[:100]))
+
+
+def _mentions_infinity(e):
+    for n in ast.walk(e):
+        if isinstance(n, ast.Attribute) and n.attr.lower() in ('inf', 'infty', 'pinf', 'ninf', 'infinity'):
+            return True
+        if isinstance(n, ast.Name) and n.id.lower() in ('inf', 'infty', 'infinity'):
+            return True
+        if isinstance(n, ast.Constant) and isinstance(n.value, str) and \
+                n.value.strip().lstrip('+-').lower() in ('inf', 'infinity'):
+            return True
+        if isinstance(n, ast.Constant) and isinstance(n.value, float) and n.value in (float('inf'), float('-inf')):
+            return True
+    return False
 
 
 # ---------------------------------------------------------------------------
@@ -1132,19 +1334,22 @@ def d5_triangle(ck):
         ca, ct = commits[0]
         X = ca.value.value
         cand = next(iter(cands))
-        if X.id != cand:
-            ck.missing(rule + '.plain', '%s: the committed array `%s` is not the pruned candidate `%s`' % (q, X.id, cand))
-            continue
+        # the objects the committed name can denote (a definition `x = y` makes
+        # x denote the very object y denotes: followed to the creating sites)
         copy_sites = set()
         for a, t in st:
-            copy_sites |= fi.defs_of_use(t.value)
-        plain = [d for d in fi.defs_of_use(X) if d not in copy_sites]
+            copy_sites |= object_sites(fi, t.value)
+        committed = object_sites(fi, X)
+        if not (copy_sites and copy_sites <= committed):
+            ck.missing(rule + '.plain', '%s: the committed array `%s` is not the pruned candidate `%s`' % (q, X.id, cand))
+            continue
+        plain = [d for d in committed if d not in copy_sites]
         if not plain:
             ck.missing(rule + '.plain', '%s: no definition of `%s` other than the shortcut reaches the commit' % (q, cand))
-        for site in plain:
-            vv = fi.def_value(site, cand) if site not in ('PARAM', 'UNBOUND') else None
+        for site, pname in plain:
+            vv = fi.def_value(site, pname) if site not in ('PARAM', 'UNBOUND') else None
             if vv is None:
-                ck.missing(rule + '.plain', '%s: plain definition of `%s` is not a simple assignment' % (q, cand))
+                ck.missing(rule + '.plain', '%s: plain definition of `%s` is not a simple assignment' % (q, pname))
                 continue
             x = fi.expand(vv, stop=(NEW,))
             verdict = _dm_verdict(x, DM, [T], [NEW], ['%s(%s, %s)' % (DM, T, NEW)], scope)
@@ -1152,7 +1357,7 @@ def d5_triangle(ck):
                 verdict = ('near', 1, None)
             ck.decide(verdict, rule + '.plain', mod, site, q, u(site),
                       'plain branch computes every distance to the new centre into the same candidate',
-                      'plain branch must assign %s(%s, %s) to `%s`' % (DM, T, NEW, cand))
+                      'plain branch must assign %s(%s, %s) to `%s`' % (DM, T, NEW, pname))
     ck.floor(rule + '.threshold', n, 2, 'triangle-inequality sites')
 
 
